@@ -405,12 +405,12 @@ Section Dilworth.
     match l with a :: ((b :: _) as r) => ltb a b = true /\ linked r | _ => True end.
 
   Lemma chain_linked : forall n c, length c <= n -> chain c ->
-    exists s, (forall z, In z s <-> In z c) /\ linked s /\ (forall h b, hd_error s = Some h -> In b c -> ltb b h = false).
+    exists s, (forall z, In z s <-> In z c) /\ linked s /\ (forall h b, hd_error s = Some h -> In b c -> ltb b h = false) /\ NoDup s.
   Proof.
     induction n as [|n IH]; intros c Hlen Hch.
-    { destruct c; [|cbn in Hlen; lia]. exists []. split; [tauto|]. split; [exact I|]. intros h b H. discriminate. }
+    { destruct c; [|cbn in Hlen; lia]. exists []. split; [tauto|]. split; [exact I|]. split; [intros h b H; discriminate|constructor]. }
     destruct c as [|d c0] eqn:Ec.
-    { exists []. split; [tauto|]. split; [exact I|]. intros h b H. discriminate. }
+    { exists []. split; [tauto|]. split; [exact I|]. split; [intros h b H; discriminate|constructor]. }
     rewrite <- Ec in *. assert (Hne : c <> []) by (rewrite Ec; discriminate).
     destruct (minel_spec d c Hne) as [Hein Hemin]. set (e := minel d c) in *.
     set (c' := filter (fun z => negb (eqb z e)) c).
@@ -420,9 +420,9 @@ Section Dilworth.
       - destruct (eqb x e) eqn:E; [apply eqb_spec in E; contradiction|reflexivity]. }
     assert (Lc' : length c' < length c).
     { apply (filter_length_lt _ c e Hein). apply negb_false_iff. apply eqb_spec. reflexivity. }
-    destruct (IH c' ltac:(lia)) as (s' & Hs'in & Hlk & Hhd).
+    destruct (IH c' ltac:(lia)) as (s' & Hs'in & Hlk & Hhd & NDs').
     { intros x y Hx Hy. apply Hch; [apply (Hc'in x)|apply (Hc'in y)]; assumption. }
-    exists (e :: s'). split; [|split].
+    exists (e :: s'). split; [|split; [|split]].
     - intros z. cbn [In]. rewrite Hs'in, Hc'in. split.
       + intros [<-|[H _]]; assumption.
       + intros H. destruct (eq_dec e z) as [E|E]; [left; exact E|right; split; [exact H|intros X; apply E; symmetry; exact X]].
@@ -430,6 +430,7 @@ Section Dilworth.
       assert (Hh : In h c') by (apply Hs'in; left; reflexivity). apply Hc'in in Hh. destruct Hh as [Hh Hhe].
       destruct (Hch e h Hein Hh) as [E|[L|L]]; [congruence|exact L|]. rewrite (Hemin h Hh) in L. discriminate.
     - intros h b Hh Hb. cbn in Hh. injection Hh as <-. apply Hemin. exact Hb.
+    - constructor; [|exact NDs']. intros Hin. apply Hs'in in Hin. apply Hc'in in Hin. apply (proj2 Hin). reflexivity.
   Qed.
 End Dilworth.
 
